@@ -56,6 +56,36 @@ type harnessProvider struct {
 	subs            []ethereum.Subscription
 	ambiguousNext   bool
 	sent            int
+	recv0           int                   // logs the first subscription (the pool's original one) has received
+	q0              *ethereum.FilterQuery // its filter
+}
+
+// caughtUp waits until the first subscription has received every log that is on the chain (the simulated backend
+// hands logs to subscriptions asynchronously; a subscription installed while a block's logs are still under way
+// would receive them as well).
+func (p *harnessProvider) caughtUp(limit time.Duration) bool {
+	p.mu.Lock()
+	q := p.q0
+	p.mu.Unlock()
+	if q == nil {
+		return false
+	}
+	all := *q
+	all.FromBlock, all.ToBlock = big.NewInt(0), nil
+	deadline := time.Now().Add(limit)
+	for {
+		logs, err := p.SimulatedBackend.FilterLogs(context.Background(), all)
+		p.mu.Lock()
+		got := p.recv0
+		p.mu.Unlock()
+		if err == nil && got >= len(logs) {
+			return true
+		}
+		if time.Now().After(deadline) {
+			return false
+		}
+		time.Sleep(time.Millisecond)
+	}
 }
 
 // shutdown ends the log subscriptions (the proxy's event loop has no other way to stop and would keep the whole
@@ -100,6 +130,11 @@ func (p *harnessProvider) SubscribeFilterLogs(ctx context.Context, q ethereum.Fi
 	}
 	p.mu.Lock()
 	p.out = ch
+	first := len(p.subs) == 0 && p.q0 == nil
+	if first {
+		qq := q
+		p.q0 = &qq
+	}
 	p.subs = append(p.subs, sub)
 	p.mu.Unlock()
 	go func() {
@@ -107,6 +142,9 @@ func (p *harnessProvider) SubscribeFilterLogs(ctx context.Context, q ethereum.Fi
 			select {
 			case l := <-in:
 				p.mu.Lock()
+				if first {
+					p.recv0++
+				}
 				if p.hold {
 					p.queue = append(p.queue, l)
 					p.mu.Unlock()
@@ -229,10 +267,20 @@ func (f *chainFixture) waitProxyDeposit(a string) (*big.Int, bool) {
 	}
 }
 
+// c07RestartKey names the listed finding "a restarted pool forgets the settlement it submitted" (KNOWN_FINDINGS.txt).
+const c07RestartKey = "restart-forgets-pending-settlement"
+
 func TestC07Contract(t *testing.T) {
 	rec := vt.For("C07")
 	rec.Rule("real proxy and settlement: payment.ContractPayment over the vipnode pool contract deployed on go-ethereum's simulated chain (operator key, wallets with funds; the provider answers pending calls from the pending state or, like many public providers, from the latest block), real PaymentService with generated fee and minimum; each wallet talks to the pool under a generated spelling of its address (EIP-55, lower-case, upper-case hex) and sometimes under a second one; rules: on-chain deposit (addBalance + block), credit accrual in the store, the owner's forceSettle (time lock), withdraw (+ block), two withdrawals of one wallet before the block is mined (same or different spelling); oracle: a withdrawal executes iff deposit+credit >= minimum (and the contract can pay), the wallet's on-chain ether grows by exactly fee(deposit+credit), its on-chain deposit and its stored credit are 0 afterwards, a repeated withdrawal pays nothing more (under another spelling: only that spelling's own credit, never the deposit again), a refused/failed one changes nothing; with a time-locked deposit a withdrawal is either refused without effect or pays deposit+credit in full; non-trivial = a successful withdrawal followed by another attempt; distinct by config + op sequence")
 	rec.Assume("the simulated chain mines a block when the harness says so; the proxy's deposit view is awaited (it follows Balance events asynchronously) before each decision that depends on it")
+	knownRestart := vt.Known("C07", c07RestartKey)
+	knownRestartSeen := false
+	defer func() {
+		if knownRestartSeen {
+			vt.ReportKnown("C07", c07RestartKey)
+		}
+	}()
 	rapid.Check(t, func(rt *rapid.T) {
 		fee := rapid.SampledFrom([]string{"", "const", "prop"}).Draw(rt, "fee")
 		var min *big.Int
@@ -245,6 +293,7 @@ func TestC07Contract(t *testing.T) {
 		pendingIsLatest := rapid.Bool().Draw(rt, "pendingIsLatest")
 		f := newChainFixture(rt, fee, min, pendingIsLatest)
 		restarted := false
+		lateToRestartedSeen := false
 		defer f.backend.Close()
 		defer f.provider.shutdown()
 		feeOf := func(a *big.Int) *big.Int {
@@ -464,26 +513,38 @@ func TestC07Contract(t *testing.T) {
 					touched[w.addr] = true
 					continue
 				}
+				// the pool may be restarted between the two requests: a new proxy on the same store and chain, nothing
+				// remembered; what it learns about the deposit it learns from the chain's pending state, where the first
+				// settlement already is
+				restartNow := second && !pendingIsLatest && rapid.IntRange(0, 2).Draw(rt, "restartBetween") == 0
+				lateToRestarted := false
+				if restartNow && !lateEvents && !f.provider.caughtUp(5*time.Second) {
+					restartNow = false // (logs of mined blocks still under way inside the simulated backend: not this time)
+					rec.Count("contract:restart-skipped-logs-under-way", 1)
+				}
+				if restartNow {
+					cp2, err := payment.ContractPayment(f.st, f.addr, f.provider, bind.NewKeyedTransactor(f.operator.key))
+					if err != nil {
+						fail("ContractPayment (restart): %v", err)
+					}
+					f.proxy = cp2
+					f.pay.BalanceStore, f.pay.Settle = cp2, cp2.OpSettle
+					restarted = true
+					hist = append(hist, "(pool restarted: new contract proxy, first settlement still unmined)")
+					lateToRestarted = lateEvents
+					lateToRestartedSeen = lateToRestartedSeen || lateToRestarted
+				}
 				if lateEvents {
 					n := release()
-					hist = append(hist, fmt.Sprintf("(%d events of earlier blocks are delivered only now, after %s's withdraw request)", n, w.name))
+					if lateToRestarted {
+						hist = append(hist, fmt.Sprintf("(%d events of blocks mined before the restart reach the restarted pool only now)", n))
+					} else {
+						hist = append(hist, fmt.Sprintf("(%d events of earlier blocks are delivered only now, after %s's withdraw request)", n, w.name))
+					}
 				}
 				var err2 error
 				if second {
 					// the owner (or an impatient client library) asks again before the settlement transaction is mined
-					if !pendingIsLatest && !lateEvents && !f.provider.holding() && rapid.IntRange(0, 2).Draw(rt, "restartBetween") == 0 {
-						// ... and the pool was restarted in between: a new proxy on the same store and chain, nothing
-						// remembered; what it learns about the deposit it learns from the chain's pending state, where
-						// the first settlement already is
-						cp2, err := payment.ContractPayment(f.st, f.addr, f.provider, bind.NewKeyedTransactor(f.operator.key))
-						if err != nil {
-							fail("ContractPayment (restart): %v", err)
-						}
-						f.proxy = cp2
-						f.pay.BalanceStore, f.pay.Settle = cp2, cp2.OpSettle
-						restarted = true
-						hist = append(hist, "(pool restarted: new contract proxy, first settlement still unmined)")
-					}
 					err2 = doWithdraw(w, acct2)
 				}
 				f.backend.Commit()
@@ -550,6 +611,24 @@ func TestC07Contract(t *testing.T) {
 				if exec1 && err != nil {
 					fail("withdrawal of %s (deposit %s + credit %s >= minimum %v, contract can pay) failed: %v", w.name, dep, cred1, min, err)
 				}
+				if got.Cmp(want) != 0 && lateToRestarted && exec1 && knownRestart {
+					// the listed finding: the restarted pool has no memory of the settlement it submitted; a Balance
+					// event from before it puts the paid-out deposit back and the second request is paid from it again
+					cred2 := new(big.Int).Set(cr(acct2))
+					if acct2 == acct {
+						cred2 = new(big.Int)
+					}
+					if again, paysAgain := expect(dep, cred2, new(big.Int).Sub(funds, pays1)); again && got.Cmp(new(big.Int).Add(pays1, paysAgain)) == 0 {
+						rec.Excluded(c07RestartKey, 1)
+						knownRestartSeen = true
+						hist = append(hist, "   (known finding: the deposit was paid a second time)")
+						for _, a := range []string{acct, acct2} {
+							credit[a] = storedCredit(a)
+						}
+						paidThenAgain = true
+						continue
+					}
+				}
 				if got.Cmp(want) != 0 {
 					fail("wallet %s received %s on chain, must receive exactly %s (first request: executes=%v pays %s; second: executes=%v pays %s) - a deposit or credit was paid twice, or not in full", w.name, got, want, exec1, pays1, exec2, pays2)
 				}
@@ -576,7 +655,7 @@ func TestC07Contract(t *testing.T) {
 				}
 			}
 		}
-		rec.Case(fmt.Sprintf("chain|%s|%v|%v|%v", fee, min, pendingIsLatest, hist), paidThenAgain, []string{"contract", fmt.Sprintf("contract:restart-with-unmined-settlement:%v", restarted), fmt.Sprintf("contract:second-withdraw:%v", paidThenAgain), fmt.Sprintf("contract:second-under-other-spelling:%v", otherSpelling), fmt.Sprintf("contract:time-locked-withdraw:%v", lockedSeen), fmt.Sprintf("contract:pending-is-latest:%v", pendingIsLatest)}, func() interface{} {
+		rec.Case(fmt.Sprintf("chain|%s|%v|%v|%v", fee, min, pendingIsLatest, hist), paidThenAgain, []string{"contract", fmt.Sprintf("contract:restart-with-unmined-settlement:%v", restarted), fmt.Sprintf("contract:late-events-reach-restarted-pool:%v", lateToRestartedSeen), fmt.Sprintf("contract:second-withdraw:%v", paidThenAgain), fmt.Sprintf("contract:second-under-other-spelling:%v", otherSpelling), fmt.Sprintf("contract:time-locked-withdraw:%v", lockedSeen), fmt.Sprintf("contract:pending-is-latest:%v", pendingIsLatest)}, func() interface{} {
 			return map[string]interface{}{"kind": "real contract proxy on a simulated chain", "fee": fee, "withdraw_min": fmt.Sprint(min), "provider_pending_is_latest": pendingIsLatest, "history": hist}
 		})
 	})
